@@ -6,6 +6,11 @@ ALL = ["C%02d" % i for i in range(1, 21)]
 
 # id -> (level category, engine, technique, level text, level note, design ref)
 CLAIMED = {
+ "C16": ("exploration", "E3 value-domain enumeration through generated modules",
+         "exhaustive enumeration of the matrix operand type x literal x operator x operand value x placement, each cell executed on the real when/where/filter machinery and compared with the mathematical truth of the comparison",
+         "For 13 operand types (all integer widths signed and unsigned, decimal64, string, boolean, enumeration, identityref), 1-3 literals each, all six operators and operand values {unset, literal-1, literal, literal+1, type minimum, type maximum}: a module is generated and loaded, and the condition is exercised as when on a leaf (read and edit), when on a container, when on a list, where= on a list and filter= on a notification stream. Visibility / written-ness / kept entries / delivered events must equal the truth of the comparison computed with math/big, code points, enum name (=, !=) or value (order) and boolean truth; an unset operand must make every comparison false without error or panic. The matrix is finite and enumerated completely; expressions the XPath subset rejects at parse time (negative literals) are skipped and counted.",
+         "trusted: reference truth function c16Truth; context rule taken from the library's own tests (container/list when: inside the node; leaf when: in the parent)",
+         "DESIGN.md section 7 C16"),
  "C08": ("model_checking", "E2 enumeration over nodes x start selections x path variants",
          "bounded exhaustive enumeration of every node of the data trees x start selection x path variant, each Find executed on the real code over a recording store and checked for identity, typed keys, content, render-back and absence of writes",
          "For every container, list, list entry and leaf of a tree holding 14 string keys with reserved characters (/ , = % space + .. ? # %41, non-ASCII, empty), int32/enumeration/boolean keys and compound-key lists nested in lists: Find from the root (plain, module-qualified, trailing slash, with query), from every non-list ancestor, and through ../ steps from three other nodes. The selection must be on exactly the addressed schema node (pointer identity) with typed keys and the model subtree as content, the rendered Path must find the same node again, absent keys/containers must give (nil, nil), unknown names a not-found error, and the recording store must see no write or edit callback.",
